@@ -45,6 +45,16 @@ CLAIMED = {
    note="Trusted: Coq kernel + VM; no axioms. Targets are addressed by identity in the model (live-object clause is near by construction there; its content is the harness comparing received pointers with t.Column(n)/AllRows()/CellAt). User callbacks are total and only set the property the test sets (DESIGN 13.3).",
    technique="Coq proof by induction over histories and passes (model trace = spec trace, counting lemma) + differential check with recording callbacks, judged by vm_compute",
    ref="6 (C13)"),
+ "C07": dict(
+   text="Machine-checked proof (Coq 8.16.1, closed under the global context) over a Gallina model of json.go: for every well-formed view, rendering never panics; it returns an error exactly under the listed conditions (no columns, no/too few/empty/duplicate headers, a non-boolean Skipable on column 0 or a column, a row longer than the column count, a Marshal failure on a non-omitted cell) and Render() then returns no text; otherwise a complete JSON parser written in Coq (byte-level pushdown machine: all escapes, \\uXXXX with surrogate pairs, numbers per the grammar, ordered objects) reads the output back as exactly the array of one object per non-separator row, wherever separators fall (the comma look-ahead is proved by induction on the row list), with members omitted for missing cells and for empty cells exactly in skipable columns (own, else column 0). The encoding/json oracle premise (each key/value encoding is a self-delimiting JSON value) is discharged by a boolean that the run evaluates on every case (c07_valid_and_mirrors_checked). Tied to the code by rendering all row/separator sequences up to length 4 x skipable assignments and random tables with hostile headers and every JSON-relevant item kind; Coq parses the implementation's real bytes and compares with the value expected from the input, and with the model's bytes; the Coq parser itself is validated each run against json.Valid / Decoder.Token on ~1,200 snippets and mutated outputs (a disagreement is exit 2).",
+   note="Trusted: Coq kernel + VM; no axioms. External: encoding/json's Marshal output enters as oracle bytes (checked per case to parse standalone). Key equality with the header text is claimed for valid UTF-8 headers (DESIGN 13.9).",
+   technique="Coq proof of a parse . render round trip through a fold_left pushdown JSON parser (induction on rows, cells, bytes) + differential correspondence and parser self-validation against encoding/json, judged by vm_compute",
+   ref="6 (C07)"),
+ "C16": dict(
+   text="PARTIAL by design. Proved (Coq 8.16.1, closed under the global context): in an interleaving model (registry + one local state per goroutine; actions Local/RegRead/RegNames) every complete schedule - any merge, unbounded - of confined, registry-reading programs leaves each goroutine's final state and observations equal to running it alone, and the registry unchanged (induction on the schedule with a commutation lemma); the hypothesis is shown necessary by two refuted variants (a registry write, an unconfined Local). Validated, not proved, on every run: that the Go code is confined this way - (a) the harness, built with -race, runs 8-64 goroutines each building and rendering its own tables in all 26 formats/decorations/auto styles while others read the registry, and compares every output with the same table rendered alone (a race report or a mismatch is the replay); (b) a source inventory regenerated from the repository's AST on every run (every package-level var; every post-init write, address-taking or pointer-receiver call on one; lock coverage of registry.table) must satisfy shared_ok, evaluated in Coq.",
+   note="Trusted: Coq kernel + VM; no axioms; the Go race detector and scheduler; the AST walk (harness/c16_srcfacts.go: lexical lock rule, no alias tracking). Data-race freedom under the Go memory model is NOT proved (no Go semantics for Coq is installed); the inventory clause sits on the correspondence bit, so a harmless rewrite that trips it is reported, after a widened race search, as no-failing-input-found.",
+   technique="Coq proof of schedule independence by induction over all interleavings (partial: confinement of the real code validated by race-detector runs and a regenerated source inventory judged in Coq)",
+   ref="6 (C16)"),
 }
 
 def main():
